@@ -32,6 +32,7 @@ type c03Step struct {
 	H      bool       `json:"h"`
 	On     bool       `json:"on"`
 	Ver    int        `json:"ver"`
+	Jk     string     `json:"jk"`
 }
 
 type c03Scenario struct {
@@ -118,6 +119,7 @@ func TestVerifC03(t *testing.T) {
 			ev["done"] = h.Executed()
 			ev["fetches"] = h.TakeFetches()
 			ev["held"] = h.Held()
+			ev["calls"] = h.TakeCalls()
 			ev["up"] = h.Svc != nil
 			tr.Emit(ev)
 		}
@@ -167,9 +169,9 @@ func TestVerifC03(t *testing.T) {
 				h.Hold(st.K, st.On)
 				emit(verifsupport.Ev{"ev": "Hold", "k": st.K, "on": st.On})
 			case "Release":
-				ok, err := h.Release(st.K, st.N, st.Ver)
+				ok, err := h.ReleaseCall(st.K, st.N, st.Ver, st.Jk)
 				check(err)
-				emit(verifsupport.Ev{"ev": "Release", "k": st.K, "n": st.N, "ver": st.Ver, "released": ok})
+				emit(verifsupport.Ev{"ev": "Release", "k": st.K, "n": st.N, "ver": st.Ver, "jk": st.Jk, "released": ok})
 			default:
 				t.Fatalf("unknown step %q", st.Ev)
 			}
